@@ -264,9 +264,16 @@ def near_address(addr, kind: str) -> UDPv4Address:  # noqa: ANN001
     return twin
 
 
-def forged_signed(ov, data: bytes, version: int, claim: bytes) -> bytes:  # noqa: ANN001
-    """A value that names ``claim`` as its signer and carries 64 bytes that are not a signature."""
-    return ov._ez_pack(b"", 1, [SignedStrPayload(data, version, claim)], sig=False) + FORGED_SIGNATURE
+def forged_signed(ov, data: bytes, version: int, claim: bytes, signature: bytes = FORGED_SIGNATURE) -> bytes:  # noqa: ANN001
+    """
+    A value that names ``claim`` as its signer and carries 64 bytes that are not its signature: garbage, or (a
+    "splice") the signature bytes of a genuine value of that signer over other content.
+    """
+    return ov._ez_pack(b"", 1, [SignedStrPayload(data, version, claim)], sig=False) + signature
+
+
+# splice name -> (genuine value whose signature bytes are reused, version the splice claims)
+SPLICES = {"splice1": (1, 1), "splice2": (1, 2), "splice3": (2, 3)}
 
 
 class CWorld:
@@ -463,6 +470,10 @@ class CWorld:
             # names A's key and the SAME version as the genuine a1 / a2, other data, no valid signature
             v = int(variant[-1])
             return [forged_signed(m, b"FORGED-v%d" % v, v, self.pk["A"])]
+        if variant in SPLICES:
+            # other data, the claimed version, A's key, and the signature bytes of A's genuine v1 / v2
+            of, v = SPLICES[variant]
+            return [forged_signed(m, b"SPLICED-v%d" % v, v, self.pk["A"], signed(a, b"A-v%d" % of, of)[-64:])]
         raise ValueError(variant)
 
     def store(self, x: str, token_choice: str, variant: str, k: int) -> str:
@@ -676,7 +687,8 @@ def community_alphabet(name: str) -> list:
         # dedicated short family: genuine signed values, then forgeries with the same / other (signer, version)
         al = [("st", "A", "own", "a1", 0), ("st", "A", "own", "a2", 0), ("st", "M", "own", "a2", 0),
               ("st", "M", "own", "forge1", 0), ("st", "M", "own", "forge2", 0), ("st", "A", "own", "forge2", 0),
-              ("st", "M", "own", "broken", 0), ("st", "M", "own", "claim", 0), ("vm",)]
+              ("st", "M", "own", "broken", 0), ("st", "M", "own", "claim", 0), ("vm",),
+              *[("st", "M", "own", sp, 0) for sp in SPLICES]]
     elif name == "lifetimes":
         # writers with good tokens only: versions, lifetimes, maintenance, rotation
         al = token_events[:2] + time_events + [("st", "M", "own", "p:M", 0), ("st", "A", "own", "p:A", 0),
@@ -696,7 +708,7 @@ def community_alphabet(name: str) -> list:
 # part 3: the reader against an honest and a malicious responder
 # =====================================================================================================================
 
-READER_VALUES = ("plain", "a0", "a1", "a2", "a2'", "m1", "broken", "claim", "junk", "forge1")
+READER_VALUES = ("plain", "a0", "a1", "a2", "a2'", "m1", "broken", "claim", "junk", "forge1", "splice2")
 
 
 def reader_case(seed: int, honest: tuple, malicious: tuple, before: tuple = ()) -> tuple[list, tuple]:
@@ -741,6 +753,9 @@ def reader_case(seed: int, honest: tuple, malicious: tuple, before: tuple = ()) 
                 return b"\x02junk"
             if v in ("forge1", "forge2"):
                 return forged_signed(x, b"FORGED-v" + v[-1:].encode(), int(v[-1]), pk_a)
+            if v in SPLICES:
+                of, ver = SPLICES[v]
+                return forged_signed(x, b"SPLICED-v%d" % ver, ver, pk_a, signed(a, b"A-v%d" % of, of)[-64:])
             raise ValueError(v)
 
         r = ov["R"]
@@ -805,7 +820,7 @@ def reader_cases(max_h: int, max_x: int) -> list:
     cases = [(h, x, ()) for h in hs for x in xs]
     # reader with a history: it has seen a genuine value, then a malicious responder answers (forgeries naming the same
     # signer with the same / another version among them)
-    second = ("forge1", "forge2", "a1", "plain", "broken")
+    second = ("forge1", "forge2", "a1", "plain", "broken", "splice1", "splice2", "splice3")
     xs2 = [c for n in range(1, 3) for c in itertools.permutations(second, n)]
     cases += [((), x, (g,)) for g in ("a1", "a2") for x in xs2]
     return cases
